@@ -81,6 +81,34 @@ Proof.
     [cbn [plan_dtype]; rewrite resolve_iter_loop_spec; reflexivity | apply merge_cells_survive; assumption | exact HM].
 Qed.
 
+(* a table grown block by block (FrameGO setitem / extend): the cached row dtype is the common dtype when all blocks
+   agree and object otherwise, for every number of appended blocks *)
+Lemma grown_loop_obj ds : grown_loop DObj ds = DObj.
+Proof.
+  unfold grown_loop. induction ds as [|x ds IH]; [reflexivity|]. cbn [fold_left].
+  replace (grown_step DObj x) with DObj; [exact IH|]. unfold grown_step. destruct (dtype_eqb x DObj); reflexivity.
+Qed.
+
+Lemma grown_loop_spec ds : forall d,
+  grown_loop d ds = if forallb (fun x => dtype_eqb x d) ds then d else DObj.
+Proof.
+  induction ds as [|x ds IH]; intros d; [reflexivity|].
+  unfold grown_loop in *. cbn [fold_left forallb]. unfold grown_step at 2.
+  destruct (dtype_eqb x d) eqn:E; cbn [andb]; [apply IH|].
+  apply (grown_loop_obj ds).
+Qed.
+
+Theorem grown_row_no_loss d ds d' v :
+  In d' (d :: ds) -> holds d' v = true -> to_object_ok d' v = true ->
+  survives (grown_loop d ds) (FromArr d' v) = true.
+Proof.
+  intros Hin Hv Ho. rewrite grown_loop_spec. cbn [survives]. unfold holds_arr.
+  destruct (forallb (fun x => dtype_eqb x d) ds) eqn:A; [|exact Ho].
+  assert (d' = d).
+  { destruct Hin as [->|Hin]; [reflexivity|]. rewrite forallb_forall in A. apply dtype_eqb_eq. apply A. exact Hin. }
+  subst d'. destruct d; auto.
+Qed.
+
 (* the guards are satisfiable: an int32 column reindexed with the fill value 2**40 and a str column with a longer str *)
 Example fill_operation_example :
   M_check (PFill (DInt true 4) (EPy (XInt (2 ^ 40)))) [FromArr (DInt true 4) (XInt 7); FromElem (EPy (XInt (2 ^ 40)))]
